@@ -28,9 +28,15 @@ type c04Input struct {
 	// Pre: the same Querier first answers a selection of the containers n1|n2, abandoned after Pre-1 records
 	// (0 = no earlier query).
 	Pre int `json:"pre,omitempty"`
+	// SameMsg: every record of every container carries the same message (records that coincide in timestamp and
+	// text are still distinct records)
+	SameMsg bool `json:"same_msg,omitempty"`
 }
 
 func c04Rec(in c04Input, i, j, ts int) (msg string, ns int64) {
+	if in.SameMsg {
+		return "same#0", int64(ts) * sec
+	}
 	if !in.Empty {
 		return fmt.Sprintf("c%d#%d", i, j), int64(ts) * sec
 	}
@@ -295,6 +301,7 @@ func c04Run(r *vkit.Run) {
 	for _, logs := range [][][]int{{{1, 2}, {1, 2}}, {{1}, {1}, {1}}, {{2, 2, 3}, {1, 3}}, {{1, 1, 1}, {}, {1}}} {
 		emit(c04Input{Logs: logs, Mode: "bound", Bound: 1, Empty: true})
 		emit(c04Input{Logs: logs, Mode: "bound", Bound: 1, TwoNames: true})
+		emit(c04Input{Logs: logs, Mode: "bound", Bound: 1, SameMsg: true})
 		for pre := 1; pre <= 3; pre++ {
 			emit(c04Input{Logs: logs, Mode: "bound", Bound: 1, Pre: pre})
 		}
@@ -320,7 +327,7 @@ func c04Run(r *vkit.Run) {
 	}
 	// (d) many containers (beyond every small-size threshold of heap, slice and map code): rotations and the reversal of
 	// the completion order, records with ties across containers and long per-container logs
-	for _, n := range []int{9, 17, 65} {
+	for _, n := range []int{9, 17, 65, 300} {
 		logs := make([][]int, n)
 		for i := range logs {
 			for j := 0; j < 1+i%4; j++ {
@@ -345,7 +352,7 @@ func c04Run(r *vkit.Run) {
 			emit(c04Input{Logs: logs, Mode: "perm1", Perm: q})
 		}
 	}
-	r.Note("bounds", fmt.Sprintf("N<=3 containers x sequences of <=%d records over 3 timestamps, preemption bound %d; %d inventories with all interleavings; all N! completion orders for N<=%d; 9, 17 and 65 containers (one with 300 records) under 6 completion orders each", maxLen, bound, len(sel), maxN))
+	r.Note("bounds", fmt.Sprintf("N<=3 containers x sequences of <=%d records over 3 timestamps, preemption bound %d; %d inventories with all interleavings; all N! completion orders for N<=%d; 9, 17, 65 and 300 containers (one with 300 records) under 6 completion orders each", maxLen, bound, len(sel), maxN))
 }
 
 func c04Replay(r *vkit.Run, v vkit.Violation) *vkit.Violation {
